@@ -385,6 +385,16 @@ func regSpoil(path string, spoil [][2]string) error {
 				continue
 			}
 			how := sp[1]
+			if how == "straybf" {
+				// a record of a torrent without metadata that carries a bitfield all the same (a damaged or crafted
+				// database): there is nothing the bitfield could be checked against; the record loads like any
+				// record without metadata
+				if len(b.Get(boltdbresumer.Keys.Info)) == 0 {
+					_ = b.Put(boltdbresumer.Keys.Bitfield, []byte{0x80})
+					continue
+				}
+				how = "bitfield"
+			}
 			if len(b.Get(boltdbresumer.Keys.Info)) == 0 {
 				how = "infohash"
 			}
@@ -998,7 +1008,7 @@ func genRegistry(r *Rng, n int, tier string) []Case {
 			if r.Chance(22) {
 				var sp []string
 				for j, k := 0, r.Pick(1, 1, 2); j < k; j++ {
-					sp = append(sp, fmt.Sprintf("%d:%s", ref0(), r.PickS("bitfield", "info", "infohash")))
+					sp = append(sp, fmt.Sprintf("%d:%s", ref0(), r.PickS("bitfield", "info", "infohash", "straybf", "straybf")))
 				}
 				op += " spoil=" + strings.Join(sp, ",")
 			}
